@@ -75,8 +75,10 @@ def child_main(cache_dir, rd, wr, name, disabled=False):
 
     def yield_(ev, **kw):
         send(ev, **kw)
-        if os.read(rd, 1) != b"g":
+        ans = os.read(rd, 1)
+        if ans not in (b"g", b"t"):
             os._exit(9)
+        return ans
 
     real_open = builtins.open
 
@@ -178,7 +180,10 @@ def child_main(cache_dir, rd, wr, name, disabled=False):
         def acquire(self, *a, **k):
             first = not self.is_locked
             if first:
-                yield_("want", file=fname(self.lock_file[:-5]))  # the scheduler lets us continue only when the lock is free
+                # the scheduler lets us continue when the lock is free - or tells us that the wait timed out (the holder is stopped / slow)
+                if yield_("want", file=fname(self.lock_file[:-5])) == b"t":
+                    send("timeout", file=fname(self.lock_file[:-5]))
+                    raise filelock.Timeout(self.lock_file)
             r = super().acquire(*a, **k)
             if first:
                 yield_("acquire", file=fname(self.lock_file[:-5]))
@@ -237,6 +242,11 @@ class Proc:
         os.write(self.w, b"g")
         return self.next_event()
 
+    def timeout(self):
+        """Answer a pending `want` with a time-out. The child reports it and runs on to its next yield point: two events."""
+        os.write(self.w, b"t")
+        return self.next_event(), self.next_event()
+
     def kill(self):
         try:
             os.kill(self.pid, signal.SIGKILL)
@@ -269,6 +279,7 @@ class Scenario:
         self.trace = []
         self.lock = {f: None for f in FILES}
         self.procs = {}
+        self.timeouts = set()       # processes whose wait for a held lock ends in a time-out instead of blocking
 
     def spawn(self, name):
         p = Proc(self.dir, name)
@@ -285,7 +296,10 @@ class Scenario:
             if self.lock[p.blocked_on] is not None:
                 return False
             p.blocked_on = None
-        e = p.go()
+        if p.pending is not None:
+            e, p.pending = p.pending, None
+        else:
+            e = p.go()
         if e is None:
             p.state = "fatal"
             self.trace.append({"p": p.name, "ev": "fatal", "exc": "process died without a report"})
@@ -293,6 +307,18 @@ class Scenario:
             return True
         if e["ev"] == "want":
             if self.lock[e["file"]] is not None:
+                if p.name in self.timeouts:
+                    for x in p.timeout():
+                        if x is None:
+                            p.state = "fatal"
+                            self.trace.append({"p": p.name, "ev": "fatal", "exc": "process died without a report"})
+                            p.reap()
+                            return True
+                        if x["ev"] == "want":          # straight into the next lock request: handled on the next step
+                            p.pending = x
+                            return True
+                        self.record(p, x)
+                    return True
                 p.blocked_on = e["file"]
                 return True  # consumed a scheduling slot, now waiting
             e = p.go()
@@ -531,6 +557,8 @@ def run_scenario(tmpl, base, sid, init, sched, r, epilogue=True):
             p = sc.procs[s["p"]]
             if s["at"] == "KILL":
                 sc.kill(p)
+            elif s["at"] == "TIMEOUTS":
+                sc.timeouts.add(p.name)
             else:
                 sc.step(p)
         sc.run_all(names)
@@ -731,7 +759,7 @@ def stale_lane(v, base, tier):
 def key_of(t, matched):
     e = t["ev"][min(matched, len(t["ev"]) - 1)]
     init = "+".join(f"{f}={t['init'][f]}" for f in FILES) + ("" if t["init"].get("dir", True) else "+nofolder")
-    kind = "stress" if t["sched"] == "stress" else ("kill" if any(s["at"] == "KILL" for s in t["sched"]) else ("interleaving" if len({s["p"] for s in t["sched"]}) > 1 else "solo"))
+    kind = "stress" if t["sched"] == "stress" else ("lockwait" if any(s["at"] == "TIMEOUTS" for s in t["sched"]) else "kill" if any(s["at"] == "KILL" for s in t["sched"]) else ("interleaving" if len({s["p"] for s in t["sched"]}) > 1 else "solo"))
     if e["ev"] == "fatal":
         return f"C18/{kind}/{init}/fatal:{e.get('exc')}"
     if e["ev"] == "done":
@@ -821,6 +849,13 @@ def run(tier):
     for k in (1, 2, 3, 5, 8):
         jobs.append((f"nofolder-kill-{k}", nofolder, [{"p": "p1", "at": "step"}] * k + [{"p": "p1", "at": "KILL"}, {"p": "p2", "at": "step"}]))
 
+    # ---- lock-wait time-outs: p1 is stopped after k primitives (perhaps while it holds a lock); p2, whose waits time out, runs to its end; then p1 goes on
+    for k in list(range(1, 26)) + ([30, 40, 60, 100] if tier == "quick" else list(range(26, 200, 3))):
+        for init in ({"quick": "missing", "data": "missing"}, {"quick": "valid", "data": "stale"}, {"quick": ["partial", 3000], "data": "valid"}):
+            if tier == "quick" and k > 25 and init["quick"] != "missing":
+                continue
+            jobs.append((f"lockwait-{k}-{init['quick']}-{init['data']}"[:60], init, [{"p": "p2", "at": "TIMEOUTS"}] + [{"p": "p1", "at": "step"}] * k + [{"p": "p2", "at": "step"}] * 400))
+
     def do(job):
         sid, init, sched = job
         return run_scenario(tmpl, base, sid, init, sched, rng(PROP, sid))
@@ -866,7 +901,7 @@ def run(tier):
                      "interposition + solo first use on every damaged state (missing/empty/stale/wrong type/garbage/prefixes of the valid file) + late kills + "
                      "alternating two-process races + unsynchronised fresh interpreters; every scenario ends with an epilogue process and an independent "
                      "classification of both cache files; distinct by (initial state, schedule)")
-    v.assumptions += ["lock waits stay below FileLock's 10 s time-out", "same-size-same-mtime edits of the data folder are outside 'stale'",
+    v.assumptions += ["a lock wait either ends when the holder releases, or times out (scheduled scenarios `lockwait-*`: the waiting process is told so and must go on without the cache)", "same-size-same-mtime edits of the data folder are outside 'stale'",
                       "scheduled processes are forked children of a pre-imported interpreter; fresh interpreters are used in the stress rounds only",
                       "a kill happens between primitives; states inside one write are covered by the prefix sweep"]
     return v.finish()
